@@ -54,11 +54,11 @@ M = [
   "            if (self.platform.os.major, self.platform.os.minor) <= (  # type: ignore[attr-defined]\n                target.platform.os.major,  # type: ignore[attr-defined]\n                target.platform.os.minor,  # type: ignore[attr-defined]\n            ):", "            if (self.platform.os.major, 0) <= (  # type: ignore[attr-defined]\n                target.platform.os.major,  # type: ignore[attr-defined]\n                0,\n            ):"),
  ("inequality_and_expression_any", "C02", "src/dep_logic/markers/single.py",
   "            elif not any(v in other.specifier for v in self.values):\n                return other", "            elif not all(v in other.specifier for v in self.values):\n                return other"),
- ("orderedset_set_equality", "C10", "src/dep_logic/utils.py",
+ ("orderedset_set_equality", "C13", "src/dep_logic/utils.py",
   "        if isinstance(other, OrderedSet):\n            return self._data == other._data\n        return super().__eq__(other)", "        return super().__eq__(other)"),
- ("exclude_keeps_empty", "C12,C15", "src/dep_logic/markers/union.py",
+ ("exclude_keeps_empty", "", "src/dep_logic/markers/union.py",
   "        if not new_markers:\n            # All markers were the excluded marker.\n            return AnyMarker()\n", ""),
- ("platform_str_amd64", "C18", "src/dep_logic/tags/platform.py",
+ ("platform_str_amd64", "", "src/dep_logic/tags/platform.py",
   "        if isinstance(self.os, (os.Macos, os.Windows)) and self.arch == Arch.Aarch64:", "        if isinstance(self.os, os.Windows) and self.arch == Arch.Aarch64:"),
 ]
 out = os.path.join(os.path.dirname(os.path.abspath(__file__)), "mutants")
